@@ -192,7 +192,7 @@ def load_case_term(files, main_text, scratch, gkeep=False):
     main = L(stmt_terms(main_text))
     obs, msg = observe_builder(main_text, scratch, gkeep)
     exp = 'None' if obs is None else '(Some (%s, %s))' % (obs[0], obs[1])
-    return '(%s, %s, %s, %s)' % (fs, B(gkeep), main, exp), obs, msg
+    return '((%s, %s, %s, %s) : load_case)' % (fs, B(gkeep), main, exp), obs, msg
 
 
 # ----------------------------------------------------------------------------------------------
@@ -440,11 +440,56 @@ def check_templates(alts, defs, params):
             item(i)
 
 
-def inline_program(prog):
+def expand_templates_by_hand(defs):
+    """every template use is replaced by a fresh ordinary rule whose body is the template's body with the arguments
+    written in place of the parameters (what one does by hand); templates themselves disappear"""
+    out = {}
+    inst = {}
+    pending = []
+
+    def item(it, env):
+        k = it[0]
+        if k == 'sym':
+            return env.get(it[1], it)
+        if k == 'lit':
+            return it
+        if k in ('grp', 'opt'):
+            return (k, alts_(it[1], env))
+        if k == 'rep':
+            return ('rep', item(it[1], env), it[2])
+        head = it[1]
+        if head in env and env[head][0] == 'sym':
+            head = env[head][1]
+        args = [item(a, env) for a in it[2]]
+        key = (head, repr(args))
+        if key not in inst:
+            d = defs[head]
+            name = '%sxi%d_%s' % ('_' if head.startswith('_') else '', len(inst), head.strip('_').replace('__', '_'))
+            inst[key] = name
+            body = alts_(d['alts'], dict(zip(d['params'], args)))
+            pending.append(dict(d, name=name, params=(), alts=body))
+        return ('sym', inst[key])
+
+    def alts_(alts, env):
+        return [([item(i, env) for i in seq], al) for seq, al in alts]
+
+    for n, d in defs.items():
+        if d['params']:
+            continue
+        out[n] = d if (d['is_term'] or d['alts'] is None) else dict(d, alts=alts_(d['alts'], {}))
+    for d in pending:
+        out[d['name']] = d
+    return out
+
+
+def inline_program(prog, by_hand_templates=False):
     """-> (final defs, ignore names, inlined grammar text, label map inlined->expected modular label)"""
     defs = ref_load(prog, ('main',), lambda s: s, True)
     ignore = [st[1] for st in prog[('main',)] if st[0] == 'ignore']
     ref_validate(defs, ignore)
+    sem_defs = defs
+    if by_hand_templates:
+        defs = expand_templates_by_hand(defs)
     # sigma: final name -> name used in the hand-written grammar (terminals must be upper case there)
     sigma = {}
     used = set()
@@ -479,7 +524,7 @@ def inline_program(prog):
         labels[c] = s
     for n in ignore:
         lines.append('%%ignore %s' % sg(n))
-    return defs, ignore, '\n'.join(lines) + '\n', labels
+    return sem_defs, ignore, '\n'.join(lines) + '\n', labels
 
 
 # ----------------------------------------------------------------------------------------------
@@ -557,6 +602,18 @@ def gen_seq(rng, rules, terms, templates, params, base):
     return seq
 
 
+def lit_template_arg(alts):
+    def item(it):
+        if it[0] == 'tmpl':
+            return any(a[0] == 'lit' or item(a) for a in it[2])
+        if it[0] in ('grp', 'opt'):
+            return lit_template_arg(it[1])
+        if it[0] == 'rep':
+            return item(it[1])
+        return False
+    return any(item(i) for seq, _ in alts for i in seq)
+
+
 def gen_module(rng, letters, imported_rules, imported_terms, imported_templates, is_main):
     """local definitions of one module; imported_*: names visible through this module's imports"""
     stmts = []
@@ -575,7 +632,10 @@ def gen_module(rng, letters, imported_rules, imported_terms, imported_templates,
         alts = [(gen_seq(rng, [], allterms, {}, ps, True) + [('sym', ps[0])], None)]
         if rng.random() < 0.4:
             alts.append((gen_seq(rng, [], allterms, templates, ps, False), None))
-        tdefs.append(('rule', rng.choice(['', '', '?', '!']) if not tn.startswith('_') else '', tn, ps, None, alts))
+        tm = rng.choice(['', '', '?', '!']) if not tn.startswith('_') else ''
+        if '!' in tm and lit_template_arg(alts):
+            tm = ''
+        tdefs.append(('rule', tm, tn, ps, None, alts))
         templates[tn] = len(ps)
     rules = list(imported_rules)
     rdefs = []
@@ -588,6 +648,8 @@ def gen_module(rng, letters, imported_rules, imported_terms, imported_templates,
             alts.append((([('lit', rng.choice(ANON))] if rec else []) + gen_seq(rng, rules + rec, allterms, templates, [], False),
                          ('al%d' % rng.randint(1, 2)) if (rng.random() < 0.25 and not rn.startswith('_')) else None))
         mods = rng.choice(['', '', '', '?', '!']) if not rn.startswith('_') else rng.choice(['', '', '!'])
+        if '!' in mods and lit_template_arg(alts):
+            mods = mods.replace('!', '')     # see EXOTIC C17-T3
         rdefs.append(('rule', mods, rn, [], None if rng.random() < 0.92 else rng.randint(1, 3), alts))
         rules.append(rn)
     if rng.random() < 0.5:
@@ -878,7 +940,9 @@ def gen_inputs(defs, ignore, rng, n_pos, n_mut, n_rand):
 def canon_tree(t, labels=None):
     from lark.tree import Tree
     from lark.lexer import Token
-    m = (lambda s: labels.get(s, s)) if labels is not None else (lambda s: s)
+    m0 = (lambda s: labels.get(s, s)) if labels is not None else (lambda s: s)
+    # anonymous regexp tokens are numbered in order of creation, which is not part of the property
+    m = lambda s: '__ANON' if s.startswith('__ANON_') else m0(s)
     if isinstance(t, Tree):
         return [m(str(t.data)), [canon_tree(c, labels) for c in t.children]]
     if isinstance(t, Token):
@@ -988,7 +1052,7 @@ def record_templates(main_text, d):
         if argterms is not None and len(app) <= 1:
             appended = 'None' if not app else '(Some (%s, %s))' % (S(str(app[0][0])), ct(app[0][2]))
             ok_shape = (not app) or (list(app[0][1]) == [])
-            cases.append('(%s, %s, %s, %s, (%s, %s, %s))' % (
+            cases.append('((%s, %s, %s, %s, (%s, %s, %s)) : tmpl_case)' % (
                 L([S(x) for x in created]),
                 L(['(mkR %s %s %s %s)' % (S(n), L([S(x) for x in ps]), t, o) for n, ps, t, o in rds]),
                 S(name), L(argterms), B(not app), appended if ok_shape else 'None', S(res.name)))
@@ -1022,8 +1086,9 @@ def mangle_cases(rng, n):
             f = _get_mangle(prefix, al, f)
         s = rng.choice(names)
         layers = list(reversed(chain))          # innermost first, as in the model
-        out.append('(%s, %s, %s)' % (L(['(%s, %s)' % (S(p), L(['(%s, %s)' % (S(k), S(v)) for k, v in al.items()]))
-                                        for p, al in layers]), S(s), S(f(s))))
+        out.append(('(%s, %s, %s)' % (L(['(%s, %s)' % (S(p), L(['(%s, %s)' % (S(k), S(v)) for k, v in al.items()]))
+                                         for p, al in layers]), S(s), S(f(s))),
+                    {'imports_outermost_first': [[p, al] for p, al in chain], 'name': s, 'mangled': f(s)}))
     return out
 
 
@@ -1045,6 +1110,13 @@ EXOTIC = [
          main='start: y\n%import m (y, X)\n%override X: "c"\n',
          inlined='start: y\ny: M__Y "!"\nM__Y: X "b"\nX: "c"\n',
          labels={'M__Y': 'm__Y'}, text='cb!', parser='lalr'),
+    # a literal written as a template argument inside a !rule is kept in the instance's tree although the
+    # template itself does not keep tokens (by hand: g's instance is an ordinary rule, its "4" is filtered)
+    dict(key='C17-T3:literal-template-argument-of-keep-all-rule-kept-in-instance',
+         files={},
+         main='start: d\ng{t, u}: "1" u t\nTA: "e"\n!d: g{TA, "4"} "3"\n',
+         inlined='start: d\nTA: "e"\n!d: xi_g "3"\nxi_g: "1" "4" TA\n',
+         labels={'xi_g': 'g'}, text='14e3', parser='lalr'),
 ]
 
 
@@ -1068,7 +1140,8 @@ def correspond(ctx):
 
     new_interner()
     # (0) mangle as a function --------------------------------------------------------------------
-    mc = mangle_cases(rng, ctx.scale(300, 3000))
+    mcm = mangle_cases(rng, ctx.scale(300, 3000))
+    mc = [c for c, _ in mcm]
     for c in mc:
         ctx.count('mangle', key=c, nontrivial=True)
     bad, errs = ctx.coq_bad_indices('c17mangle', IMPORTS, 'check_mangle', mc, chunk=1000, extra_defs=CUR.defs())
@@ -1077,8 +1150,8 @@ def correspond(ctx):
     mangle_broken = bool(bad)
     for i in bad[:3]:
         ctx.violation('correspondence:Mod/Modules.mangle vs load_grammar._get_mangle',
-                      {'no_longer_checks': '_get_mangle agreement', 'case': mc[i]}, False,
-                      'model and _get_mangle differ on %s' % mc[i][:200])
+                      dict(mcm[i][1], no_longer_checks='_get_mangle agreement'), False,
+                      'model and _get_mangle differ: %s' % (mcm[i][1],))
 
     # (1) programs --------------------------------------------------------------------------------
     load_cases, load_meta = [], []
@@ -1092,7 +1165,7 @@ def correspond(ctx):
         d = os.path.join(ctx.scratch, 'p%d' % i)
         write_program(files, d)
         try:
-            defs, ignore, inl_text, labels = inline_program(prog)
+            defs, ignore, inl_text, labels = inline_program(prog, by_hand_templates=rng.random() < 0.6)
             spec_err = None
         except SpecError as e:
             defs, ignore, inl_text, labels, spec_err = None, None, None, None, str(e)
